@@ -31,11 +31,13 @@ func init() {
 type NeighCfg struct {
 	MaxSteps int     `json:"max_steps"`
 	YieldP   float64 `json:"yield_p"`
-	Many     bool    `json:"many_neighbours"` // more than 512 distinct neighbours announce themselves
+	Many     bool    `json:"many_neighbours"`    // more than 512 distinct neighbours announce themselves
+	Spoof    bool    `json:"spoofing,omitempty"` // the interface lets sockets send from addresses it does not own; one socket is bound to such an address
 }
 
 func (scNeigh) GenCfg(rng *sim.Rand, tier, prop, variant string) json.RawMessage {
 	c := NeighCfg{MaxSteps: rng.Range(10, 100), Many: rng.Chance(0.1)}
+	c.Spoof = rng.Chance(0.15)
 	if rng.Chance(0.4) {
 		c.YieldP = []float64{0.05, 0.3}[rng.Intn(2)]
 	}
@@ -81,11 +83,14 @@ type pendingSend struct {
 	payload []byte
 	started time.Duration
 	seq     int64 // harness event order at which the current wait began
+	ep      tcpip.Endpoint
 }
 
 type neighWorld struct {
 	*PeerWorld
 	ep       tcpip.Endpoint
+	cur      tcpip.Endpoint              // the socket the current send goes through
+	epSpoof  tcpip.Endpoint              // (Spoof) a socket bound to spoofAddr, which is not an address of the interface
 	maps     map[tcpip.Address][]mapping // every mapping delivered to the stack, in order
 	gen      map[int]int                 // current MAC generation per neighbour
 	reqTimes map[tcpip.Address][]time.Duration
@@ -133,7 +138,7 @@ func (w *neighWorld) observe() {
 				if f.DstMAC != bcastMAC {
 					w.Fail("request-not-broadcast", "", "ARP request for % x sent to link address % x, not to the broadcast address", a.TPA, []byte(f.DstMAC))
 				}
-				if !bytes.Equal(a.SHA, []byte(stackMAC)) || !bytes.Equal(a.SPA, []byte(A4)) {
+				if !bytes.Equal(a.SHA, []byte(stackMAC)) || !(bytes.Equal(a.SPA, []byte(A4)) || w.epSpoof != nil && bytes.Equal(a.SPA, []byte(spoofAddr))) {
 					w.Fail("request-wrong-sender", "", "ARP request carries sender % x / % x, the interface is % x / % x", a.SHA, a.SPA, []byte(stackMAC), []byte(A4))
 				}
 				ts := w.reqTimes[tgt]
@@ -227,18 +232,26 @@ func (w *neighWorld) arpFrom(op uint16, sha tcpip.LinkAddress, spa, tpa tcpip.Ad
 	w.Inject(w.S.Link, arp.ProtocolNumber, pkt, sha, stackMAC, 0)
 }
 
-func (w *neighWorld) trySend(dst tcpip.Address) {
+func (w *neighWorld) trySend(dst tcpip.Address, spoofed bool) {
 	hop := dst
 	if !onLink4(dst) {
 		hop = gateway4
 	}
 	w.nsent++
 	payload := dmPayload(w.seed, w.nsent)
-	n, ch, err := w.ep.Write(tcpip.SlicePayload(append([]byte(nil), payload...)), tcpip.WriteOptions{To: &tcpip.FullAddress{Addr: dst, Port: 9000}})
+	w.cur = w.ep
+	if spoofed && w.epSpoof != nil {
+		// a send from the socket bound to an address the interface does not own: resolved like any other
+		w.cur = w.epSpoof
+		w.Probes["sends_from_a_spoofed_source"]++
+	}
+	n, ch, err := w.cur.Write(tcpip.SlicePayload(append([]byte(nil), payload...)), tcpip.WriteOptions{To: &tcpip.FullAddress{Addr: dst, Port: 9000}})
 	w.Settle()
 	w.sendResult(dst, hop, payload, n, ch, err)
 	w.observe()
 }
+
+var spoofAddr = tcpip.Address("\x0a\x00\x00\x4e")
 
 // trySend2: two goroutines send to the same next hop at the same moment (for a neighbour not looked up before, two
 // first lookups race); each is judged like a send of its own - both wait for the same answer, both are released
@@ -247,6 +260,7 @@ func (w *neighWorld) trySend2(dst tcpip.Address) {
 	if !onLink4(dst) {
 		hop = gateway4
 	}
+	w.cur = w.ep
 	type res struct {
 		n       int64
 		ch      <-chan struct{}
@@ -280,7 +294,7 @@ func (w *neighWorld) sendResult(dst, hop tcpip.Address, payload []byte, n uintpt
 	case err == nil && int(n) == len(payload):
 		w.Probes["sends_completed"]++
 	case err == tcpip.ErrWouldBlock && ch != nil:
-		w.pending = append(w.pending, &pendingSend{dst: dst, hop: hop, ch: ch, payload: payload, started: w.now(), seq: w.bump()})
+		w.pending = append(w.pending, &pendingSend{dst: dst, hop: hop, ch: ch, payload: payload, started: w.now(), seq: w.bump(), ep: w.cur})
 		w.Probes["sends_waiting_for_resolution"]++
 	case err == tcpip.ErrNoLinkAddress:
 		// legal only if a resolution of this next hop failed: at least 3 s of requests without a usable answer
@@ -309,7 +323,7 @@ func (w *neighWorld) poll() {
 			still = append(still, p)
 			continue
 		}
-		_, ch, err := w.ep.Write(tcpip.SlicePayload(append([]byte(nil), p.payload...)), tcpip.WriteOptions{To: &tcpip.FullAddress{Addr: p.dst, Port: 9000}})
+		_, ch, err := p.ep.Write(tcpip.SlicePayload(append([]byte(nil), p.payload...)), tcpip.WriteOptions{To: &tcpip.FullAddress{Addr: p.dst, Port: 9000}})
 		w.Settle()
 		switch {
 		case err == nil:
@@ -380,7 +394,7 @@ func (w *neighWorld) apply(s Step) {
 		if s.C == 1 {
 			w.trySend2(dst)
 		} else {
-			w.trySend(dst)
+			w.trySend(dst, s.C == 2)
 		}
 	case "reply":
 		// neighbour A (or the gateway if B==1) answers, optionally with a new link address
@@ -423,8 +437,9 @@ func (w *neighWorld) apply(s Step) {
 		}
 		w.Take()
 		own := tgt == A4 || (tgt == neighSecond && w.second)
-		if own {
-			w.learn(addr, mac) // requests addressed to the stack teach it the sender's mapping
+		if own || w.epSpoof != nil {
+			// requests addressed to the stack teach it the sender's mapping (under spoofing every target counts as the stack's)
+			w.learn(addr, mac)
 		}
 		via := mac
 		if s.C == 1 {
@@ -464,7 +479,11 @@ func (w *neighWorld) apply(s Step) {
 			}
 		} else {
 			w.Probes["requests_for_other_address"]++
-			if len(replies) != 0 {
+			if w.epSpoof != nil {
+				// (an interface that lends itself to any source address also speaks for any target; which addresses are
+				// "its own" then is not something the statement settles - not judged)
+				w.Probes["requests_for_other_address_under_spoofing"]++
+			} else if len(replies) != 0 {
 				w.Fail("answered-for-someone-else", "", "ARP request for % x, which is not one of the stack's addresses, was answered", []byte(tgt))
 			}
 		}
@@ -505,7 +524,7 @@ func (w *neighWorld) apply(s Step) {
 		} else if tgt == A6 && na != 1 {
 			w.Fail("request-not-answered", "", "neighbour solicitation for the stack's own address drew %d advertisements", na)
 		}
-		if tgt != A6 && na != 0 {
+		if tgt != A6 && na != 0 && w.epSpoof == nil {
 			w.Fail("answered-for-someone-else", "", "neighbour solicitation for a foreign address was answered")
 		}
 		w.Probes["neighbour_solicitations"]++
@@ -694,7 +713,7 @@ func (w *neighWorld) next(cfg NeighCfg) Step {
 	case 6:
 		return Step{Op: "send6", A: r.Intn(3), B: r.Intn(3), C: r.Intn(6)}
 	case 0:
-		return Step{Op: "send", A: r.Intn(nNeigh), B: r.Pick(4, 1), C: r.Pick(5, 1)}
+		return Step{Op: "send", A: r.Intn(nNeigh), B: r.Pick(4, 1), C: r.Pick(5, 1, 2)}
 	case 1:
 		return Step{Op: "reply", A: r.Intn(nNeigh), B: r.Pick(5, 1), C: r.Pick(5, 1), D: int64(r.Pick(6, 2, 1))}
 	case 2:
@@ -743,6 +762,18 @@ func (scNeigh) Run(t *testing.T, prop string, seed uint64, cfgRaw json.RawMessag
 		must(err, "udp endpoint")
 		must(ep.Bind(tcpip.FullAddress{Addr: A4, Port: 4000}, nil), "bind")
 		w.ep = ep
+		if cfg.Spoof {
+			must(w.S.S.SetSpoofing(1, true), "spoofing")
+			eps, err := w.S.S.NewEndpoint(udp.ProtocolNumber, ipv4.ProtocolNumber, &waiter.Queue{})
+			must(err, "udp endpoint")
+			if eps.Bind(tcpip.FullAddress{Addr: spoofAddr, Port: 4001}, nil) == nil {
+				w.epSpoof = eps
+				w.S.Link.Addrs = nil // (C06: an interface that lends itself to any source address - the source-address clause is not judged on it)
+				w.Probes["sockets_bound_to_an_address_the_interface_does_not_own"]++
+			} else {
+				eps.Close()
+			}
+		}
 		if ep6, err := w.S.S.NewEndpoint(udp.ProtocolNumber, ipv6.ProtocolNumber, &waiter.Queue{}); err == nil {
 			if ep6.Bind(tcpip.FullAddress{Addr: A6, Port: 4006}, nil) == nil {
 				w.ep6, w.learned6 = ep6, map[int]tcpip.LinkAddress{}
